@@ -192,12 +192,14 @@ def ideal_tree(ops, j, infos):
         return {"src": ["pool", op["prog"]], "kids": kids}
     if op["k"] == "bind":
         return {"src": ["bound", ops[op["ref"]]["prog"], cj(op["params"])], "kids": []}
-    if op["k"] in ("oraclize", "grover"):
+    if op["k"] in ("oraclize", "grover") and op.get("elem") is not None:
         r = op["ref"]
         n = pristine_name(ops, r)
         callee = "_oracle" if n == "oracle" else n
-        return {"src": ["oraclize", callee, infos.get(r, {}).get("argT", ""), op["elem"]],
-                "kids": [ideal_tree(ops, r, infos)]}
+        kid = ideal_tree(ops, r, infos)
+        if kid is None or n is None:  # the argument is not a function (the operation raises)
+            return None
+        return {"src": ["oraclize", callee, infos.get(r, {}).get("argT", ""), op["elem"]], "kids": [kid]}
     if op["k"] == "secret_oracle":
         return {"src": ["secret", op["n"], op["secret"]], "kids": []}
     return None
@@ -234,9 +236,15 @@ def pidx(name, nth=0):
     return [i for i, p in enumerate(POOL) if p["name"] == name][nth]
 
 
-def systematic():
+QUICK_S2 = ["g", "oracle", "f", "b2", "x3", "copy", "len", "types"]
+
+
+def systematic(thorough=True):
     H = []
     lvl0 = [i for i, p in enumerate(POOL) if p["level"] == 0 and not p["params"]]
+    if not thorough:
+        # quick tier: the consumer matrix over one program per name class (all programs in thorough)
+        lvl0 = [i for i in lvl0 if POOL[i]["name"] in QUICK_S2]
     # S1 every program alone, as a string and as a callable
     for i, p in enumerate(POOL):
         if p["level"] == 0:
@@ -267,6 +275,9 @@ def systematic():
         ("recompile-callee", [comp(gb), comp(ga), comp(h0, [1]), comp(ga, callable_=True), comp(h0, [3])]),
         ("recompile-callee", [comp(ga), comp(fq), comp(k, [0, 1]), comp(gb), comp(pidx("f", 0)), comp(k, [3, 1])]),
         ("callers-of-colliders", [comp(pidx("copy")), comp(pidx("c1"), [0])]),
+        ("callers-of-colliders", [comp(pidx("copy"), callable_=True), comp(pidx("c1"), [0]), mk("grover_e", 0),
+                                  mk("oraclize", 0), mk("repr", 2), mk("repr", 0)]),
+        ("callers-of-colliders", [comp(pidx("flatten"), callable_=True), mk("oraclize", 0), mk("grover_e", 0), mk("truth_table", 0)]),
         ("callers-of-colliders", [comp(pidx("types")), comp(pidx("t1"), [0]), comp(pidx("types"), callable_=True), comp(pidx("t1"), [2])]),
         ("oracle-names", [comp(pidx("oracle", 0)), comp(pidx("o3"), [0]), mk("oraclize", 0), comp(pidx("o3"), [0]),
                           comp(pidx("o2"), [0]), mk("oraclize", 0), mk("grover_e", 0)]),
@@ -574,8 +585,10 @@ def run_batch(ctx, ch, res, hists, labels, active, findings_by_quirk, collect=No
         its = {}
         for i, op in enumerate(ops):
             if is_qf_op(op) or (op["k"] == "grover" and op.get("elem") is not None):
-                its[i] = ideal_tree(ops, i, infos)
-                note_tree(its[i])
+                t = ideal_tree(ops, i, infos)
+                if t is not None:
+                    its[i] = t
+                    note_tree(t)
         ideal_trees.append(its)
     if replies is not None:
         for rep in replies:
@@ -762,10 +775,10 @@ def run(ctx: Ctx) -> Result:
     try:
         active = active_quirks(ctx)
         fbq = findings_by_quirk(ctx)
-        sysh = systematic()
+        sysh = systematic(ctx.thorough)
         hists = [ops for _, ops in sysh]
         labels = [l for l, _ in sysh]
-        n_rand = 900 if ctx.thorough else 120
+        n_rand = 300 if ctx.thorough else 80
         max_len = 25 if ctx.thorough else 8
         for k in range(n_rand):
             n = ctx.rng.randint(3, max_len)
